@@ -5,6 +5,7 @@
 package mcp
 
 import (
+	"bufio"
 	"bytes"
 	"context"
 	"crypto/rand"
@@ -397,9 +398,15 @@ func (c *SSEClientTransport) Connect(ctx context.Context) (Connection, error) {
 		return nil, fmt.Errorf("failed to connect: %s", http.StatusText(resp.StatusCode))
 	}
 
+	// The endpoint event and the messages that follow it are scanned from one
+	// buffered reader: scanEvents reads ahead, so a second reader on resp.Body
+	// would lose whatever arrived in the same read as the endpoint event.
+	// (bufio.NewReader, called by scanEvents, returns body itself.)
+	body := bufio.NewReader(resp.Body)
+
 	msgEndpoint, err := func() (*url.URL, error) {
 		var evt Event
-		for evt, err = range scanEvents(resp.Body) {
+		for evt, err = range scanEvents(body) {
 			break
 		}
 		if err != nil {
@@ -428,7 +435,7 @@ func (c *SSEClientTransport) Connect(ctx context.Context) (Connection, error) {
 	go func() {
 		defer s.Close() // close the transport when the GET exits
 
-		for evt, err := range scanEvents(resp.Body) {
+		for evt, err := range scanEvents(body) {
 			if err != nil {
 				return
 			}
